@@ -2102,7 +2102,7 @@ class IrregularLattice(Lattice):
 
     def __init__(self, regular_lattice, remove=None, add=None, add_unit_cell=[], add_positions=None):
         if add_positions is None:
-            add_positions = np.zeros((len(add_unit_cell), regular_lattice.dim))
+            add_positions = np.zeros((len(add_unit_cell), regular_lattice.unit_cell_positions.shape[1]))
         elif len(add_unit_cell) != len(add_positions):
             raise ValueError('length of add_unit_cell and add_positions need to be the same')
         self.regular_lattice = regular_lattice
